@@ -141,7 +141,10 @@ class Evaluator:
         if k == 'param':
             if e.get('foreign'):
                 return ('unk', 'foreign param')
-            return fr['args'][e['i']] if e['i'] < len(fr['args']) else ('unk', 'param')
+            v = fr['args'][e['i']] if e['i'] < len(fr['args']) else ('unk', 'param')
+            if v[0] == 'alias':
+                return self.E(v[1], P, v[2])
+            return v
         if k == 'local':
             if e.get('static'):
                 self.trace.static_locals.append((e['n'], e.get('l')))
@@ -150,6 +153,8 @@ class Evaluator:
                 return ('unk', 'uninitialised local ' + e['n'])
             if e['n'] in self.freeze:
                 return ('sym', self.freeze[e['n']])
+            if v[0] == 'alias':
+                return self.E(v[1], P, v[2])
             return v
         if k == 'global':
             q = e['q']
@@ -163,7 +168,12 @@ class Evaluator:
         if k == 'member':
             path = self.mpath(e, P, fr)
             if path is None:
-                return ('field', self.E(e['base'], P, fr), e['n'])
+                bt = self.E(e['base'], P, fr)
+                if bt[0] == 'deref' and bt[1][0] == 'addr':
+                    bt = bt[1][1]
+                if bt[0] == 'struct':
+                    return bt[1].get(e['n'], ('unk', 'unset field ' + e['n']))
+                return ('field', bt, e['n'])
             return self.read_member(path, P, e.get('l'))
         if k == 'this':
             return ('sym', 'this:' + fr['this'])
@@ -185,10 +195,20 @@ class Evaluator:
                 t = self.E(e['e'], P, fr)
                 if t[0] == 'addr':
                     return t[1]
+                if t[0] == 'sym' and t[1].startswith('this:'):
+                    return t                      # *this is the object itself
                 if t[0] == 'sym':
                     return ('sym', t[1] + '*')
                 return ('deref', t)
             if op == '&':
+                inner = strip(e['e'], casts=True)
+                if inner.get('k') == 'param' and not inner.get('foreign') and inner['i'] < len(fr['args']) and fr['args'][inner['i']][0] == 'alias':
+                    al = fr['args'][inner['i']]
+                    return self.E({'k': 'un', 'op': '&', 'e': al[1], 'l': e.get('l')}, P, al[2])
+                if inner.get('k') == 'member':
+                    pth = self.mpath(inner, P, fr)
+                    if pth is not None:
+                        return ('addr', ('sym', pth))
                 return ('addr', self.E(e['e'], P, fr))
             if op in ('++', '--'):
                 tgt = e['e']
@@ -243,10 +263,17 @@ class Evaluator:
         if k == 'call':
             return self.call(e, P, fr)
         if k == 'index':
-            return ('elem', self.E(e['base'], P, fr), self.E(e['idx'], P, fr))
+            bt, it = self.E(e['base'], P, fr), self.E(e['idx'], P, fr)
+            if bt[0] == 'arr' and it[0] == 'num' and it[1].denominator == 1 and 0 <= int(it[1]) < len(bt[1]):
+                return bt[1][int(it[1])]
+            return ('elem', bt, it)
         if k == 'construct':
             if len(e['args']) == 1:
                 return self.E(e['args'][0], P, fr)
+            if 'basic_string<char' in str(e.get('t', '')) and e['args'] and e.get('ctor', '').startswith(('void (const char *', 'void (const std::basic_string')):
+                return self.E(e['args'][0], P, fr)
+            if not e['args'] and str(e.get('t', '')) in self.prog.records:
+                return ('struct', {})
             return ('unk', 'construct ' + e.get('t', ''))
         if k == 'str':
             return ('str', e['v'])
@@ -254,6 +281,11 @@ class Evaluator:
             return ('sym', 'fn:' + e['q'])
         if k == 'zeroinit':
             return num(0)
+        if k == 'initlist':
+            vals = [self.E(a, P, fr) for a in e['args']]
+            if e.get('fields') is not None and len(e['fields']) >= len(vals):
+                return ('struct', {f: v_ for f, v_ in zip(e['fields'], vals)})
+            return ('arr', tuple(vals))
         if k == 'new':
             P.events.append(('new', e.get('ty'), e.get('l')))
             return ('new', e.get('ty'), e.get('l'))
@@ -315,6 +347,14 @@ class Evaluator:
     def mpath(self, e, P, fr):
         """dotted path of a member expression relative to the entry object"""
         b = strip(e['base'], casts=True)
+        if b.get('k') == 'local':
+            v = P.locals.get((fr['id'], b['id']))
+            if v is not None and v[0] == 'alias':
+                vb = strip(v[1], casts=True)
+                if vb.get('k') in ('member', 'this') or (vb.get('k') == 'un' and vb['op'] == '*'):
+                    return self.mpath({'base': v[1], 'n': e['n']}, P, v[2])
+            if v is None or v[0] in ('struct', 'arr', 'unk', 'call'):
+                return None
         if b.get('k') == 'this':
             return (fr['this'] + '.' if fr['this'] else '') + e['n']
         if b.get('k') == 'member':
@@ -343,12 +383,25 @@ class Evaluator:
         t = strip(tgt, casts=True)
         k = t.get('k')
         if k == 'local':
+            cur = P.locals.get((fr['id'], t['id']))
+            if cur is not None and cur[0] == 'alias':
+                return self.assign(cur[1], v, P, cur[2], loc)
             P.locals[(fr['id'], t['id'])] = v
             if t['n'] in self.freeze:
                 self.trace.frozen_values.setdefault(t['n'], []).append(v)
             if t.get('static'):
                 self.trace.static_locals.append((t['n'], loc))
             return
+        if k == 'member' and self.mpath(t, P, fr) is None:
+            bb = strip(t['base'], casts=True)
+            if bb.get('k') == 'local':
+                cur = P.locals.get((fr['id'], bb['id']))
+                if cur is not None and cur[0] == 'alias':
+                    return self.assign({'k': 'member', 'n': t['n'], 'base': cur[1], 'l': loc}, v, P, cur[2], loc)
+                d_ = dict(cur[1]) if cur is not None and cur[0] == 'struct' else {}
+                d_[t['n']] = v
+                P.locals[(fr['id'], bb['id'])] = ('struct', d_)
+                return
         if k == 'member':
             path = self.mpath(t, P, fr)
             if path is not None:
@@ -361,8 +414,8 @@ class Evaluator:
         if k == 'param':
             # by-value parameter reassigned, or reference parameter bound to something of the caller
             a = fr['args'][t['i']] if t['i'] < len(fr['args']) else None
-            if a is not None and a[0] == 'ref':
-                self.assign_ref(a, v, P, loc)
+            if a is not None and a[0] == 'alias':
+                self.assign(a[1], v, P, a[2], loc)
             else:
                 fr['args'][t['i']] = v
             return
@@ -410,6 +463,12 @@ class Evaluator:
         if q is None:
             # indirect call through a pointer
             f = self.E(e['indirect'], P, fr)
+            ft = f[1] if f[0] in ('addr', 'deref') else f
+            if ft[0] == 'sym' and ft[1].startswith('fn:') and self.inline and fr['depth'] < MAX_DEPTH:
+                cands = self.prog.by_q.get(ft[1][3:], [])
+                if len(cands) == 1 and len(cands[0].params) == len(e['args']):
+                    args = [self.ref_or_value(a, p_, P, fr) for a, p_ in zip(e['args'], cands[0].params)]
+                    return self.inline_call(cands[0], args, fr['this'], P, fr)
             args = tuple(self.E(a, P, fr) for a in e['args'])
             return ('apply', f, args)
         n = e['n']
@@ -531,8 +590,21 @@ class Evaluator:
         fn, this_path = target
         args = []
         for a, p in zip(args_e, fn.params):
-            args.append(self.E(a, P, fr))
+            args.append(self.ref_or_value(a, p, P, fr))
         return self.inline_call(fn, args, this_path, P, fr)
+
+    def ref_or_value(self, a, p, P, fr):
+        """argument for parameter p: non-const lvalue references to members / locals are passed as aliases"""
+        ty = str(p.get('t', ''))
+        if ty.endswith('&') and not ty.endswith('&&') and not ty.startswith('const '):
+            tgt = strip(a, casts=True)
+            if tgt.get('k') in ('member', 'local') or (tgt.get('k') == 'un' and tgt['op'] == '*'):
+                if tgt.get('k') == 'local':
+                    cur = P.locals.get((fr['id'], tgt['id']))
+                    if cur is not None and cur[0] == 'alias':
+                        return cur
+                return ('alias', a, fr)
+        return self.E(a, P, fr)
 
     def resolve(self, e, P, fr, obj):
         """(Fn, this_path) of the function executed by call e, or None"""
@@ -683,6 +755,13 @@ class Evaluator:
             for v in s['vars']:
                 if v.get('static'):
                     self.trace.static_locals.append((v['n'], v.get('l')))
+                ty = str(v.get('t', ''))
+                if v.get('init') is not None and ty.endswith('&') and not ty.endswith('&&'):
+                    tgt = strip(v['init'], casts=True)
+                    if tgt.get('k') in ('member', 'local', 'index') or (tgt.get('k') == 'un' and tgt['op'] == '*') or \
+                            (tgt.get('k') == 'call' and tgt.get('n') in ('operator[]', 'operator*', 'at')):
+                        P.locals[(fr['id'], v['id'])] = ('alias', v['init'], fr)
+                        continue
                 if v.get('init') is not None:
                     P.locals[(fr['id'], v['id'])] = self.E(v['init'], P, fr)
                     if v['n'] in self.freeze:
